@@ -1,6 +1,4 @@
-import Proofs.C05Where
-import Proofs.C05ColSlice
-import Proofs.C05Attrs
+import Proofs.C05Fixed
 /-!
 C05 — reading a ragged array equals reading the list of its rows.
 
@@ -29,6 +27,13 @@ input class (`…_partial`):
   least one `True` (`getitem-2d-empty-index-list-or-all-false-mask`).
 The finding `rect-fastpath-multidim-cells` is outside this model: cells are atomic here, the defect
 is numpy's `reshape(-1, L)` cutting multi-dimensional cells apart; the harness reports it.
+
+The model has a second variant, `getItemF` (`getItemV true`), for the tree with the proposed repair
+applied (`slice.indices` arithmetic, empty selections built with integer dtype).  For it every
+refinement theorem is proved in full (`…_repaired`, last section): no excluded region, the only
+hypotheses are well-formedness and the property's own grammar (column-slice step ≠ 0, paired
+lists of equal length).  The harness announces which variant the staged code follows and the
+correspondence check holds it to that.
 -/
 
 deriving instance DecidableEq for Except
@@ -95,6 +100,9 @@ theorem get_int_slice {α : Type} (ra : RA α) (h : WF ra) (fast : Bool) (hf : F
     absE (getItem ra fast (.two (.int i) (.slice cs))) = specGet (rows ra) (.two (.int i) (.slice cs)) :=
   get_int_slice' ra h fast hf i cs
 
+example : absE (getItem (⟨[1, 2, 3, 4, 5], [3, 2]⟩ : RA Nat) false (.two (.int 0) (.slice ⟨some (-1), none, some (-2)⟩))) =
+    .ok (.arr [3, 1]) := by decide
+
 /-! ### element access -/
 
 /-- `a[i, j]` for all integers `i`, `j` (negative ones included): the flat offset `starts[i] + j` reads `rows[i][j]` and fails exactly when that read fails -/
@@ -154,6 +162,13 @@ theorem get_list_int_partial {α : Type} (ra : RA α) (h : WF ra) (fast : Bool) 
     (hl : l ≠ []) :
     absE (getItem ra fast (.two (.list l b) (.int j))) = specGet (rows ra) (.two (.list l b) (.int j)) :=
   get_list_int' ra h fast l b j hl
+
+example : absE (getItem (⟨[1, 2, 3, 4, 5], [3, 2]⟩ : RA Nat) false (.two (.int (-2)) (.list [2, -3] true))) =
+    .ok (.arr [3, 1]) := by decide
+example : absE (getItem (⟨[1, 2, 3, 4, 5], [3, 2]⟩ : RA Nat) false (.two (.list [0, 1] false) (.int 2))) =
+    .error .indexError := by decide
+example : absE (getItem (⟨[1, 2, 3, 4, 5], [3, 2]⟩ : RA Nat) false (.two (.list [0, 1] false) (.int (-2)))) =
+    .ok (.arr [2, 4]) := by decide
 
 /-! ### two-dimensional reads with a row slice -/
 
@@ -299,6 +314,10 @@ theorem iter_spec {α : Type} (ra : RA α) (h : WF ra) (fast : Bool) (hf : FastO
 /-- `flatten()` is the concatenation of the rows -/
 theorem flatten_spec {α : Type} (ra : RA α) (h : WF ra) : flatten ra = (rows ra).flatten := flatten_eq ra h
 
+example : iter (⟨[1, 2, 3, 4, 5, 6], [3, 3]⟩ : RA Nat) true = .ok [[1, 2, 3], [4, 5, 6]] ∧
+    WF (⟨[1, 2, 3, 4, 5, 6], [3, 3]⟩ : RA Nat) ∧ FastOK (⟨[1, 2, 3, 4, 5, 6], [3, 3]⟩ : RA Nat) true :=
+  ⟨by decide, by decide, fun _ => ⟨3, by decide, by decide, by decide⟩⟩
+
 /-- `lengths`, `starts`, `size`, `len`, `shape` are those of the list of rows -/
 theorem attrs_spec {α : Type} (ra : RA α) (h : WF ra) (fast : Bool) (hf : FastOK ra fast) :
     ra.lengths = (rows ra).map List.length ∧
@@ -318,5 +337,97 @@ example : shape (⟨[1, 2, 3, 4, 5], [3, 2]⟩ : RA Nat) = .ok (2, none) ∧
 /-- `slice.indices` never produces a position outside the sequence (so the specification's slice reads cannot fail for a spurious reason) -/
 theorem slice_indices_in_range (len : Nat) (s : PySlice) (ix : List Nat) (h : s.indices len = some ix) :
     ∀ k ∈ ix, k < len := indices_lt h
+
+/-! ### the repaired variant: every form in full
+
+`getItemF` mirrors `ra.py` with the repair of `/tmp/fix-proposals/C05-ra-reads.diff` applied. -/
+
+/-- the variant switch of the driver is nothing but a choice between the two models -/
+theorem variant_dispatch {α : Type} (ra : RA α) (fast : Bool) (idx : Index) :
+    getItemV false ra fast idx = getItem ra fast idx ∧ getItemV true ra fast idx = getItemF ra fast idx :=
+  ⟨rfl, rfl⟩
+
+/-- the row view after the repair (`reshape((n, L) + cell shape)`), zero-length rows included -/
+theorem array_view_eq_rows_repaired {α : Type} (ra : RA α) (h : WF ra) (fast : Bool) (hf : FastOKF ra fast) :
+    arrayViewF ra fast = .ok (rows ra) := arrayViewF_eq_rows ra h fast hf
+
+theorem get_row_repaired {α : Type} (ra : RA α) (h : WF ra) (fast : Bool) (hf : FastOKF ra fast) (i : Int) :
+    absE (getItemF ra fast (.one (.int i))) = specGet (rows ra) (.one (.int i)) := get_row_F ra h fast hf i
+
+theorem get_row_slice_repaired {α : Type} (ra : RA α) (h : WF ra) (fast : Bool) (hf : FastOKF ra fast) (s : PySlice) :
+    absE (getItemF ra fast (.one (.slice s))) = specGet (rows ra) (.one (.slice s)) :=
+  get_row_slice_F ra h fast hf s
+
+theorem get_row_list_repaired {α : Type} (ra : RA α) (h : WF ra) (fast : Bool) (hf : FastOKF ra fast) (l : List Int) (b : Bool) :
+    absE (getItemF ra fast (.one (.list l b))) = specGet (rows ra) (.one (.list l b)) :=
+  get_row_list_F ra h fast hf l b
+
+theorem get_int_slice_repaired {α : Type} (ra : RA α) (h : WF ra) (fast : Bool) (hf : FastOKF ra fast) (i : Int) (cs : PySlice) :
+    absE (getItemF ra fast (.two (.int i) (.slice cs))) = specGet (rows ra) (.two (.int i) (.slice cs)) :=
+  get_int_slice_F ra h fast hf i cs
+
+theorem get_elem_repaired {α : Type} (ra : RA α) (h : WF ra) (fast : Bool) (i j : Int) :
+    absE (getItemF ra fast (.two (.int i) (.int j))) = specGet (rows ra) (.two (.int i) (.int j)) :=
+  get_elem_F ra h fast i j
+
+/-- `a[rs, j]` for every row slice: negative steps, bounds beyond the row count, empty selections -/
+theorem get_slice_int_repaired {α : Type} (ra : RA α) (h : WF ra) (fast : Bool) (rs : PySlice) (j : Int) :
+    absE (getItemF ra fast (.two (.slice rs) (.int j))) = specGet (rows ra) (.two (.slice rs) (.int j)) :=
+  get_slice_int_F ra h fast rs j
+
+/-- `a[rs, [j…]]` for every row slice and every column list (also empty) -/
+theorem get_slice_list_repaired {α : Type} (ra : RA α) (h : WF ra) (fast : Bool) (rs : PySlice) (l : List Int) (b : Bool) :
+    absE (getItemF ra fast (.two (.slice rs) (.list l b))) = specGet (rows ra) (.two (.slice rs) (.list l b)) :=
+  get_slice_list_F ra h fast rs l b
+
+/-- `a[rs, cs]` for every row slice and every column slice of the grammar (step ≠ 0): negative starts and steps, rows that come up empty, no rows at all -/
+theorem get_slice_slice_repaired {α : Type} (ra : RA α) (h : WF ra) (fast : Bool) (rs cs : PySlice)
+    (hs : cs.step ≠ some 0) :
+    absE (getItemF ra fast (.two (.slice rs) (.slice cs))) = specGet (rows ra) (.two (.slice rs) (.slice cs)) :=
+  get_slice_slice_F ra h fast rs cs hs
+
+/-- `a[[i…], cs]` for every row list (also empty, out-of-range rows give `IndexError` on both sides) -/
+theorem get_list_slice_repaired {α : Type} (ra : RA α) (h : WF ra) (fast : Bool) (l : List Int) (b : Bool)
+    (cs : PySlice) (hs : cs.step ≠ some 0) :
+    absE (getItemF ra fast (.two (.list l b) (.slice cs))) = specGet (rows ra) (.two (.list l b) (.slice cs)) :=
+  get_list_slice_F ra h fast l b cs hs
+
+/-- `a[[i…], [j…]]` for lists of equal length, also empty -/
+theorem get_paired_repaired {α : Type} (ra : RA α) (h : WF ra) (fast : Bool) (l l2 : List Int) (b b2 : Bool)
+    (hlen : l.length = l2.length) :
+    absE (getItemF ra fast (.two (.list l b) (.list l2 b2))) = specGet (rows ra) (.two (.list l b) (.list l2 b2)) :=
+  get_paired_F ra h fast l l2 b b2 hlen
+
+theorem get_int_list_repaired {α : Type} (ra : RA α) (h : WF ra) (fast : Bool) (i : Int) (l : List Int) (b : Bool) :
+    absE (getItemF ra fast (.two (.int i) (.list l b))) = specGet (rows ra) (.two (.int i) (.list l b)) :=
+  get_int_list_F ra h fast i l b
+
+theorem get_list_int_repaired {α : Type} (ra : RA α) (h : WF ra) (fast : Bool) (l : List Int) (b : Bool) (j : Int) :
+    absE (getItemF ra fast (.two (.list l b) (.int j))) = specGet (rows ra) (.two (.list l b) (.int j)) :=
+  get_list_int_F ra h fast l b j
+
+/-- `a[mask]` for every ragged boolean mask of the same row lengths, all-false included -/
+theorem get_mask_repaired {α : Type} (ra : RA α) (h : WF ra) (fast : Bool) (m : RA Bool) (hm : WF m)
+    (hl : m.lengths = ra.lengths) :
+    absE (getItemF ra fast (.mask m)) = specGet (rows ra) (.mask m) :=
+  get_mask_F ra h fast m hm hl
+
+theorem iter_spec_repaired {α : Type} (ra : RA α) (h : WF ra) (fast : Bool) (hf : FastOKF ra fast) :
+    iterF ra fast = .ok (rows ra) ∧ lenF ra fast = .ok (rows ra).length :=
+  ⟨iterF_eq_rows ra h fast hf, lenF_eq ra h fast hf⟩
+
+-- the witnesses of the counterexamples above, on the repaired variant
+example : absE (getItemF (⟨[1, 2, 3, 4, 5], [3, 2]⟩ : RA Nat) false (.two (.slice ⟨none, none, none⟩) (.slice ⟨some (-1), none, none⟩))) =
+    .ok (.rows [[3], [5]]) := by decide
+example : absE (getItemF (⟨[1, 2, 3, 4, 5], [3, 2]⟩ : RA Nat) false (.two (.slice ⟨none, none, some (-1)⟩) (.slice ⟨none, none, some (-2)⟩))) =
+    .ok (.rows [[5], [3, 1]]) := by decide
+example : absE (getItemF (⟨[1, 2, 3, 4, 5], [3, 2]⟩ : RA Nat) false (.two (.slice ⟨some 0, some 5, none⟩) (.slice ⟨some 2, none, none⟩))) =
+    .ok (.rows [[3], []]) := by decide
+example : absE (getItemF (⟨[1, 2, 3, 4, 5], [3, 2]⟩ : RA Nat) false (.two (.slice ⟨some 0, some 0, none⟩) (.int 0))) =
+    .ok (.rows []) := by decide
+example : absE (getItemF (⟨[1, 2, 3, 4, 5], [3, 2]⟩ : RA Nat) false (.two (.int 0) (.list [] false))) = .ok (.arr []) ∧
+    absE (getItemF (⟨[1, 2, 3, 4, 5], [3, 2]⟩ : RA Nat) false (.two (.int 2) (.list [] false))) = .error .indexError := by decide
+example : absE (getItemF (⟨[1, 2, 3, 4, 5], [3, 2]⟩ : RA Nat) false (.mask ⟨[false, false, false, false, false], [3, 2]⟩)) =
+    .ok (.arr []) := by decide
 
 end C05
